@@ -79,8 +79,8 @@ def cache_put(name, key, val):
 
 
 PLAN = {
-    "quick": [("equilibrium", 10), ("mixed", 12), ("rebuild", 8), ("rebuild_finish", 8), ("recover", 6), ("shortage", 6)],
-    "thorough": [("equilibrium", 60), ("mixed", 90), ("rebuild", 60), ("rebuild_finish", 60), ("recover", 40), ("shortage", 40)],
+    "quick": [("equilibrium", 10), ("mixed", 12), ("rebuild", 8), ("rebuild_finish", 8), ("recover", 6), ("shortage", 8), ("aftermath", 6), ("exhaust", 8)],
+    "thorough": [("equilibrium", 60), ("mixed", 90), ("rebuild", 60), ("rebuild_finish", 60), ("recover", 40), ("shortage", 60), ("aftermath", 40), ("exhaust", 60)],
 }
 MAX_STEPS_CHECKED = {"quick": 6, "thorough": 10}
 
